@@ -206,7 +206,7 @@ def main(argv=None):
 
     # confirm each new violation by replaying it twice (determinism)
     confirmed = []
-    for v in new[:10]:
+    for v in new[:30]:
         try:
             viol, sig, obs = mod.replay(v)
             viol2, sig2, obs2 = mod.replay(v)
